@@ -119,6 +119,29 @@ func refStore(m model) (common.Hash, map[string][]byte) {
 	return common.BytesToHash(root), st
 }
 
+// feedStack inserts the sorted entries into a StackTrie the way types.DeriveSha
+// does: every key and value is encoded into ONE reused buffer that is overwritten
+// as soon as Update has returned ("the supplied key value pair is copied and
+// managed internally, they are safe to be modified after this method returns").
+func feedStack(st *trie.StackTrie, kvs []refmpt.KV) ([]byte, error) {
+	vbuf := make([]byte, 0, 1024)
+	kbuf := make([]byte, 0, 64)
+	for _, kv := range kvs {
+		kbuf = append(kbuf[:0], kv.K...)
+		vbuf = append(vbuf[:0], kv.V...)
+		if err := st.Update(kbuf, vbuf); err != nil {
+			return kv.K, err
+		}
+		for i := range kbuf {
+			kbuf[i] = ^kbuf[i]
+		}
+		for i := range vbuf {
+			vbuf[i] = ^vbuf[i]
+		}
+	}
+	return nil, nil
+}
+
 func sortedKeys[V any](m map[string]V) []string {
 	ks := make([]string, 0, len(m))
 	for k := range m {
